@@ -2,7 +2,9 @@
    Only statements; every proof is `exact <lemma>`.  Model: Model/ParseText.v (ParseAPI.py, every entry point).
 
    The parsers are functions of the DECODED input.  Every theorem quantifies over ALL values of
-     b58 (Base58Check decoder of the network), bech32 (Bech32/Bech32m decoder), int10/int16 (Python int(s), int(s,16)),
+     b58 (uncached Base58Check decoder of the network), bech32 (uncached Bech32/Bech32m decoder) — both of type
+     text -> outcome (option _): they may return a value, None, or RAISE ANY exception class; they reach the parsers
+     only through parseable_str.cache (ps_cache), which swallows every exception — int10/int16 (Python int(s), int(s,16)),
      compile (script compiler), hmac512, stretch (electrum key stretching), mulG (k*G), modsqrt (Generator.modular_sqrt)
    so nothing about those functions is assumed unless a hypothesis says so.
    `returns r` = r is `Ret v` (a value: Some object or None), i.e. the call does not raise.
@@ -116,6 +118,17 @@ Print Assumptions C18_total_electrum_pub.
 Theorem C18_total_unsupported : forall net s, returns (unsupported net s).
 Proof. exact unsupported_total. Qed.
 Print Assumptions C18_total_unsupported.
+
+(* ---- parseable_str.cache: a decoder that raises (whatever the exception class) is the same as a decoder that
+        returns None.  The totality theorems above already quantify over raising decoders; this states the mechanism:
+        e.g. parse_bech32_or_32m raises IndexError on a checksummed string with an empty data part ("bc1gmk9yu"),
+        b58_groestl raises ImportError without the Groestl package. ---- *)
+Theorem C18_decoder_exceptions_swallowed : forall b58 bech32 net s e e',
+  b58 s = Raise e -> bech32 s = Raise e' ->
+  address b58 bech32 net s = Ret None /\ p2pkh b58 net s = Ret None /\ p2sh b58 net s = Ret None /\
+  p2pkh_segwit bech32 net s = Ret None /\ p2sh_segwit bech32 net s = Ret None /\ p2tr bech32 net s = Ret None.
+Proof. exact decoder_raises_gives_none. Qed.
+Print Assumptions C18_decoder_exceptions_swallowed.
 
 (* ---- the seed parsers and the catch-all parsers that contain them ----
    Total for every text.  The only exclusion left is the case in which the DERIVED key number (left half of the
@@ -263,7 +276,7 @@ Proof. exact hd_reserialize. Qed.
 Print Assumptions C18_reserialize_hd_payload.
 
 (* text level, for every decoder/encoder pair with decode (encode d) = Some d *)
-Theorem C18_reserialize_text : forall b58 b58enc, (forall d, b58 (b58enc d) = Some d) ->
+Theorem C18_reserialize_text : forall b58 b58enc, (forall d, b58c b58 (b58enc d) = Some d) ->
   forall mulG modsqrt net s o,
   (p2pkh b58 net s = Ret (Some o) -> exists d, p2pkh_payload net o = Some d /\ p2pkh b58 net (b58enc d) = Ret (Some o)) /\
   (p2sh b58 net s = Ret (Some o) -> exists d, p2sh_payload net o = Some d /\ p2sh b58 net (b58enc d) = Ret (Some o)) /\
@@ -275,8 +288,8 @@ Print Assumptions C18_reserialize_text.
 
 (* the codec hypothesis is satisfiable (bytes <-> code points) *)
 Example C18_codec_hypothesis_satisfiable :
-  forall d : bytes, (fun t : text => Some (map n2b t)) ((fun d : bytes => map b2n d) d) = Some d.
-Proof. intros d. cbv beta. f_equal. rewrite map_map. rewrite <- (map_id d) at 2. apply map_ext. intros b. apply n2b_b2n. Qed.
+  forall d : bytes, b58c (fun t : text => Ret (Some (map n2b t))) ((fun d : bytes => map b2n d) d) = Some d.
+Proof. intros d. unfold b58c, ps_cache. cbv beta. f_equal. rewrite map_map. rewrite <- (map_id d) at 2. apply map_ext. intros b. apply n2b_b2n. Qed.
 
 (* the hypothesis hd_prefixes_ok holds for every extended-key kind a table network defines *)
 Theorem C18_table_hd_prefixes : forall net kind p, In net table_cfgs -> n_hd_prv net kind = Some p -> hd_prefixes_ok net kind.
